@@ -5,6 +5,7 @@ import (
 	"math"
 	"math/rand"
 	"strings"
+	"sync"
 
 	"sigs.k8s.io/yaml"
 
@@ -39,14 +40,14 @@ func marshal(v interface{}) string {
 	return string(b)
 }
 
-type g struct {
+type gen struct {
 	r *rand.Rand
 	n int
 }
 
-func (g *g) pick(xs []string) string { return xs[g.r.Intn(len(xs))] }
+func (g *gen) pick(xs []string) string { return xs[g.r.Intn(len(xs))] }
 
-func (g *g) u32() uint32 {
+func (g *gen) u32() uint32 {
 	switch g.r.Intn(6) {
 	case 0, 1:
 		return 0
@@ -60,7 +61,7 @@ func (g *g) u32() uint32 {
 	return g.r.Uint32()
 }
 
-func (g *g) i64() int64 {
+func (g *gen) i64() int64 {
 	switch g.r.Intn(6) {
 	case 0:
 		return 0
@@ -74,7 +75,7 @@ func (g *g) i64() int64 {
 	return int64(g.r.Intn(512))
 }
 
-func (g *g) u64() uint64 {
+func (g *gen) u64() uint64 {
 	switch g.r.Intn(6) {
 	case 0:
 		return 0
@@ -87,7 +88,7 @@ func (g *g) u64() uint64 {
 }
 
 // tag makes payloads of different scopes visibly different
-func (g *g) devices(tag string, n int) []device {
+func (g *gen) devices(tag string, n int) []device {
 	out := []device{}
 	for i := 0; i < n; i++ {
 		g.n++
@@ -99,7 +100,7 @@ func (g *g) devices(tag string, n int) []device {
 	return out
 }
 
-func (g *g) cdis(tag string, n int) []string {
+func (g *gen) cdis(tag string, n int) []string {
 	out := []string{}
 	for i := 0; i < n; i++ {
 		g.n++
@@ -108,7 +109,7 @@ func (g *g) cdis(tag string, n int) []string {
 	return out
 }
 
-func (g *g) mounts(tag string, n int) []mount {
+func (g *gen) mounts(tag string, n int) []mount {
 	out := []mount{}
 	for i := 0; i < n; i++ {
 		g.n++
@@ -139,7 +140,7 @@ func mixCase(r *rand.Rand, s string) string {
 	return string(b)
 }
 
-func (g *g) spell(name string) string {
+func (g *gen) spell(name string) string {
 	s := name
 	if g.r.Intn(2) == 0 {
 		s = "RLIMIT_" + s
@@ -154,7 +155,7 @@ func (g *g) spell(name string) string {
 }
 
 // distinct valid names so that the guard (no type twice) holds
-func (g *g) ulimits(n int, badType, badOrder bool) []ulimit {
+func (g *gen) ulimits(n int, badType, badOrder bool) []ulimit {
 	perm := g.r.Perm(len(validNames))
 	out := []ulimit{}
 	for i := 0; i < n && i < len(perm); i++ {
@@ -185,7 +186,7 @@ var badTypes = []string{"FOO", "", "RLIMIT_", "RLIMIT_RLIMIT_CPU", "rlimit_rlimi
 // unicode specials: ı (U+0131) and ſ (U+017F) upper-case into ASCII, so these ARE accepted
 var oddAccepted = []string{"nıce", "ſtack", "rlımıt_cpu", "RLIMIT_RſS", "ſıgpendıng"}
 
-func (g *g) payload(fam, tag string, n int) string {
+func (g *gen) payload(fam, tag string, n int) string {
 	switch fam {
 	case "devices":
 		return marshal(g.devices(tag, n))
@@ -202,7 +203,7 @@ var malformed = map[string][]string{
 	"devices": {"{", "- path: [", "foo: bar", "- 1", "- path: 1", "- path: /dev/x\n  major: abc", "- path: /dev/x\n  file_mode: 4294967296",
 		"- path: /dev/x\n  uid: -1", "- path: /dev/x\n  major: 1.5", "just a string", "- path: /dev/x\n\tmajor: 1", "- - a", "path: /dev/x",
 		"- path: /dev/x\n  major: 9223372036854775808", "[}", "- path: /dev/x\n- path", "- {path: /dev/x, type: [c]}", "- path: true"},
-	"cdi":    {"{", "- 1", "- [a]", "a: b", "- {a: b}", "x", "- true", "- 1.5", "[a, b", "- a\n- 2"},
+	"cdi": {"{", "- 1", "- [a]", "a: b", "- {a: b}", "x", "- true", "- 1.5", "[a, b", "- a\n- 2"},
 	"mounts": {"{", "- destination: [", "a: b", "- 7", "- source: 1", "- destination: /x\n  options: ro", "- destination: /x\n  options: [1]",
 		"- destination: /x\n  options: {a: b}", "x", "- destination: /x\n- 3", "- destination: true"},
 	"ulimits": {"{", "- type: [", "a: b", "- 3", "- type: 1\n  hard: 1\n  soft: 1", "- type: cpu\n  hard: -1\n  soft: 0", "- type: cpu\n  hard: 1.5",
@@ -216,7 +217,7 @@ var oddOK = map[string][]string{
 		"- path: /dev/h\n  major: 0x10\n  minor: 0o17\n  file_mode: 0644", "- path: /dev/f\n  major: 1e2", "- {path: /dev/j, type: c, major: 1, minor: 2}",
 		"[{\"path\": \"/dev/json\", \"uid\": 7}]", "- source: /a\n  destination: /b", "- path: /dev/d\n  path: /dev/e", "---\n- path: /dev/doc",
 		"- path: \"/dev/q\"\n  file_mode: 438\n  uid: 0\n  gid: 0", "- path: ''"},
-	"cdi":    {"", "null", "[]", "- a", "- \"\"", "- null", "[\"x/y=z\", \"x/y=w\"]", "- vendor.com/class=a # comment"},
+	"cdi": {"", "null", "[]", "- a", "- \"\"", "- null", "[\"x/y=z\", \"x/y=w\"]", "- vendor.com/class=a # comment"},
 	"mounts": {"", "null", "[]", "- null", "- {}", "- destination: /x\n  options: null", "- destination: /x\n  options: []", "- DESTINATION: /up\n  Source: /s",
 		"- path: /dev/x\n  type: c", "[{\"destination\": \"/j\", \"options\": [\"ro\"]}]"},
 	"ulimits": {"", "null", "[]", "- {}", "- null", "- type: nofile", "- TYPE: cpu\n  HARD: 2\n  Soft: 1", "- type: core\n  hard: 0x10\n  soft: 0o7",
@@ -245,7 +246,7 @@ func addAnn(in *podIn, k, v string) {
 
 func generate(o *hx.Opts) []*podIn {
 	var out []*podIn
-	g := &g{r: o.Rand(20)}
+	g := &gen{r: o.Rand(20)}
 
 	// ---- sys: family × 2^5 scope subsets × malformed position
 	{
@@ -327,17 +328,27 @@ func generate(o *hx.Opts) []*podIn {
 		}
 	}
 
-	// ---- rand
+	// ---- rand, excl (outside the guard): one PRNG per case, generated in parallel
 	nr := o.N(12000, 200000)
-	for i := 0; i < nr; i++ {
-		out = append(out, g.randomPod("rand", false))
-	}
-
-	// ---- excl: outside the guard
 	ne := o.N(600, 8000)
-	for i := 0; i < ne; i++ {
-		out = append(out, g.randomPod("excl", true))
+	tail := make([]*podIn, nr+ne)
+	var wg sync.WaitGroup
+	for k := 0; k < 8; k++ {
+		wg.Add(1)
+		go func(k int) {
+			defer wg.Done()
+			for i := k; i < nr+ne; i += 8 {
+				gi := &gen{r: o.Rand(1000 + int64(i))}
+				if i < nr {
+					tail[i] = gi.randomPod("rand", false)
+				} else {
+					tail[i] = gi.randomPod("excl", true)
+				}
+			}
+		}(k)
 	}
+	wg.Wait()
+	out = append(out, tail...)
 	return out
 }
 
@@ -351,7 +362,7 @@ func indexOf(xs []string, x string) int {
 }
 
 // related container names: prefixes and extensions of ctr, plus unrelated ones
-func (g *g) others(ctr string) []string {
+func (g *gen) others(ctr string) []string {
 	var out []string
 	if rs := []rune(ctr); len(rs) > 0 {
 		out = append(out, string(rs[:len(rs)-1]))
@@ -369,7 +380,7 @@ func (g *g) others(ctr string) []string {
 	return res
 }
 
-func (g *g) randomPod(stream string, outside bool) *podIn {
+func (g *gen) randomPod(stream string, outside bool) *podIn {
 	in := &podIn{Kind: "pod", Stream: stream, Ctr: g.pick(ctrNames)}
 	others := g.others(in.Ctr)
 	breakFam := ""
@@ -409,7 +420,7 @@ func (g *g) randomPod(stream string, outside bool) *podIn {
 	return in
 }
 
-func (g *g) value(fam, tag string, outside bool) string {
+func (g *gen) value(fam, tag string, outside bool) string {
 	x := g.r.Intn(100)
 	if outside {
 		return g.outsidePayload(fam, tag)
@@ -430,7 +441,7 @@ func (g *g) value(fam, tag string, outside bool) string {
 }
 
 // outside the guard: the same key twice, or a name carrying the removal marker
-func (g *g) outsidePayload(fam, tag string) string {
+func (g *gen) outsidePayload(fam, tag string) string {
 	dup := g.r.Intn(2) == 0
 	switch fam {
 	case "devices":
